@@ -66,6 +66,10 @@ Theorem C09_src_sub_image_draw_sub_image_is_model : forall s area,
   map (call_of img) (fst r) = d_draw_sub_image (drawable_of s) area /\ snd r = inl tt.
 Proof. exact src_sub_image_draw_sub_image_eq. Qed.
 
+(* round 5: OriginDimensions::size of a sub image is the size of its area (sub_image.rs) *)
+Theorem C09_src_sub_image_size_is_area_size : forall s, src_SubImage_ImageRaw_size s = sz (SubImage_ImageRaw_area s).
+Proof. reflexivity. Qed.
+
 Example C09_src_draw_nonvacuous :
   let img := IR [165; 90] (Geometry.S 4 2) 2 false in
   src_ImageRaw_pixel (raw_load 2 false) (fun r => r) 2 img (P 1 1) = Some 1 /\
